@@ -167,6 +167,8 @@ def run(ctx):
     evaluate(ctx, cases, CLASSES, {"required": "invalid", "required-default": "valid", "optional-absent": "by-spec", "null-allowed": "valid", "valid": "valid"},
              "required properties", skip=lambda c, d: anon_struct_path(c, d["path"]))
     from vlib.valuecheck import replay_findings
+    from vlib import regress
+    regress.search(ctx, {"C04"})          # the shape-agnostic search step (DESIGN.md 12.8)
     replay_findings(ctx)
     ctx.cov["rule"] = ("systematic: objects with 1-3 required and 0-1 optional keys (with/without a defaulted required key, with/without a nullable required key) at 9 "
                        "positions (root, nested, nested twice, array item, item of nested array, definition, array of references, map value, nullable nested); every "
